@@ -76,7 +76,7 @@ func apisimExec(r *Run) {
 			// the listing over a chain longer than the default page (2000): rare in the quick tier (a long chain costs
 			// seconds: about one run per worker of a quick check), walked with the default page, its neighbours and
 			// sizes beyond it
-			den *= map[bool]int{false: 40, true: 20}[r.Tier == "thorough"]
+			den *= 40
 		}
 		if r.Opt["longchain"] == "1" || r.T.Chance(1, den, "long-chain") {
 			long = true
